@@ -34,7 +34,7 @@ package postprocess
 
 //@ func buildDeferTree.Process
 //@   requires response != nil && b != nil
-//@   ensures {every.announced.defer.is.scheduled} !old(b.disable) ==> (forall id :: has(response.DeferDescriptors, id) ==> ownsGroup(response, id))
+//@   ensures {every.announced.defer.is.scheduled} !old(b.disable) && old(len(response.Defers)) > 0 ==> (forall id :: has(response.DeferDescriptors, id) ==> ownsGroup(response, id))
 //@   modifies *
 //@   loop 0:
 //@     invariant fresh(childrenOf) && response.Defers == old(response.Defers)
